@@ -1,6 +1,7 @@
 import BevySyncModel.Proofs.Asset
 import BevySyncModel.Proofs.Mat
 import BevySyncModel.Proofs.MatLive
+import BevySyncModel.Proofs.AssetLive
 import BevySyncModel.Generated.Asset
 import BevySyncModel.Generated.Http
 /-! # C06 — assets published under a uuid replicate with identical content
@@ -53,6 +54,13 @@ theorem C06_no_echo_host_epoch (s : Asset.State) (as : List Asset.Act) (hi : Ass
   intro c hc
   have h := (Asset.hinv_run s as hi ha).2 c hc
   exact ⟨h.1, h.2.1⟩
+
+/-- **download classes: "once traffic has drained" is reached, not assumed** — from any state with distinct client ids, three
+fair rounds without publications (every queued download completing, with whatever its owner serves then) end in a
+quiescent state: the premise of `C06_assets_converge` -/
+theorem C06_assets_drain_reached (s : Asset.State) (hn : (s.clients.map (·.id)).Nodup) :
+    Asset.Quiescent (Asset.round (Asset.round (Asset.round s))) :=
+  Asset.three_rounds_quiescent s hn
 
 /-- **C06, inline materials, one epoch, without assuming the drain**: after the publications of one writer (host or any
 client, any number of overwrites, any schedule) there is a continuation without publications — three fair rounds — after
